@@ -79,7 +79,11 @@ def verdicts (E : BlockCipher) (op : String) (args : List String) (res : Option 
       if sender == "s" ++ q.receiver && receiver == "s" ++ q.sender && txid == toString q.txid &&
          msgType == (if q.rejoin then "RejoinAns" else "JoinAns") then [] else [("C16", "answer-does-not-mirror-sender-receiver-transaction")]
     mirror ++
-    (match c.device with
+    (if JSOps.storeFailsOf args then
+       -- the device-key store failed: no Success answer, no frame, no keys
+       (if result == "Success" || phyT != "x" || [k1, k2, k3, k4, k5].any (· != "-") then [("C16", "success-or-keys-although-the-device-key-lookup-failed")] else [])
+     else
+     match c.device with
      | none => if result == "UnknownDevEUI" then [] else [("C16", "unknown-deveui-not-reported")]
      | some (nwkKey, appKey, nonce) =>
        -- a key-encryption-key the server could not look up: no Success answer (it would carry keys in clear or under a wrong KEK)
